@@ -106,6 +106,7 @@ lyd_parse(const struct ly_ctx *ctx, const struct lysc_ext_instance *ext, struct 
     uint32_t i, int_opts = 0;
     const struct ly_err_item *eitem;
     ly_bool subtree_sibling = 0;
+    struct lyd_node **tree_p = first_p;
 
     assert(ctx && (parent || first_p));
 
@@ -192,6 +193,9 @@ cleanup:
             /* free all the parsed subtrees */
             for (i = 0; i < parsed.count; ++i) {
                 lyd_free_tree(parsed.dnodes[i]);
+            }
+            if (tree_p) {
+                *tree_p = NULL;
             }
         } else {
             /* free everything */
